@@ -62,9 +62,47 @@ BUILTINS = {"int": int, "str": str, "float": float, "list": list, "dict": dict, 
 _ANN_CACHE = {}
 
 
+# the documented ways of writing a value-dependent type; one per program (set by the caller)
+DEP_FLAVOURS = ("Dependent", "check-fn", "check-fn-param", "check-class", "subclass", "rebound")
+DEP_FLAVOUR = ["Dependent"]
+
+
+def make_dependent(bound, pred, flavour):
+    from ovld.dependent import ParametrizedDependentType, dependent_check
+
+    base = PREDS[pred]
+    if flavour == "Dependent":
+        return Dependent[bound, base]
+    if flavour in ("check-fn", "rebound"):
+        def fn(value):
+            return base(value)
+
+        fn.__name__ = fn.__qualname__ = pred
+        fn.__annotations__ = {"value": object if flavour == "rebound" else bound}
+        t = dependent_check(fn)
+        return Dependent[bound, t] if flavour == "rebound" else t
+    if flavour == "check-fn-param":
+        def fnp(value, tag):
+            return base(value)
+
+        fnp.__name__ = fnp.__qualname__ = pred
+        fnp.__annotations__ = {"value": bound}
+        return dependent_check(fnp)[pred]
+    if flavour == "check-class":
+        def check(self, value):
+            return base(value)
+
+        check.__annotations__ = {"value": bound}
+        return dependent_check(type(pred, (), {"check": check}))()
+    if flavour == "subclass":
+        # as the repository's own tests do it: a ParametrizedDependentType subclass with default_bound and check
+        return type(pred, (ParametrizedDependentType,), {"default_bound": lambda self, *_: bound, "check": lambda self, value: base(value)})(pred)
+    raise HarnessError(f"unknown dependent flavour {flavour}")
+
+
 def annotate(spec, classes):
     """Build the real annotation for a type spec (cached per class environment)."""
-    key = (id(classes), canon(spec))
+    key = (id(classes), DEP_FLAVOUR[0], canon(spec))
     a = _ANN_CACHE.get(key)
     if a is None:
         a = _annotate(spec, classes)
@@ -98,7 +136,7 @@ def _annotate(spec, classes):
         return typing.Literal[tuple(rest)]
     if op == "dep":
         bound, pred = rest
-        t = Dependent[_ntype(bound, classes), PREDS[pred]]
+        t = make_dependent(_ntype(bound, classes), pred, DEP_FLAVOUR[0])
         t._vt_key = "dep:" + canon(spec)
         return t
     if op == "union":
